@@ -241,6 +241,10 @@ def funcexpr3 (cs : Bool) (σ : List Nat) : Expr3 → Ctx → Out
     else
       let or := funcexpr3 cs σ r ol.ctx
       (ol.seq or).seq (funcinst or.ctx (binOpOf cs op l.ty) (cls t) [ol.val, or.val])
+  | .comma _ a b, c =>
+    -- EXPRCOMMA: every operand in order, the value of the last
+    let oa := funcexpr3 cs σ a c
+    oa.seq (funcexpr3 cs σ b oa.ctx)
   | .cond t e a b, c =>
     let ltrue := lblName "cond_true" (c.blockid + 1)
     let lfalse := lblName "cond_false" (c.blockid + 2)
